@@ -458,8 +458,12 @@ fn gen_payload(u: &mut U, what: &str) -> Vec<u8> {
             format!("{}{}", ["0x", "", "0X"][u.below(3)], hex_lower(&b)).into_bytes()
         }
         _ => {
-            let n = u.below(300);
-            u.bytes(n)
+            if u.ratio(1, 4) {
+                crate::gen::TRICKY_BYTES[u.below(crate::gen::TRICKY_BYTES.len())].to_vec()
+            } else {
+                let n = u.below(300);
+                u.bytes(n)
+            }
         }
     };
     match u.below(4) {
@@ -766,9 +770,21 @@ pub fn run(ctx: &mut Ctx) {
     ctx.floor_abs("cli-exit-2", 50);
 }
 
+/// Judges one library case: in a fresh process under limits when running inside the `hdv` binary (replays,
+/// fuzz artifacts), in-process inside a libFuzzer target (which has no `lib-call` mode; libFuzzer's own
+/// -timeout covers hangs there).
+pub fn judge_lib_auto(c: &LibCase, cls: &mut Classifier) -> Verdict {
+    let in_hdv = std::env::current_exe().ok().and_then(|p| p.file_name().map(|n| n == "hdv")).unwrap_or(false);
+    if in_hdv {
+        judge_lib_isolated(c, cls)
+    } else {
+        judge_lib(c, cls)
+    }
+}
+
 pub fn replay(sub: &str, case: &Value) -> Option<Verdict> {
     match sub {
-        "library" | "corpus" | "fuzz" => Some(replay_as::<LibCase>(case, judge_lib_isolated)),
+        "library" | "corpus" | "fuzz" => Some(replay_as::<LibCase>(case, judge_lib_auto)),
         "cli" | "cli-plain" => Some(replay_as::<CliCase>(case, judge_cli)),
         _ => None,
     }
